@@ -182,6 +182,18 @@ pub fn run(env: &Env) -> i32 {
         let l1 = layout::fixed_layout(&toks, layout::Fixed::OnePerLine);
         check_text("matrix", &prop, &l1, s)
     });
+    let fz = fuzz_inputs();
+    let mut fuzz_stats = json!({"status": "not run in this tier"});
+    if let Some(fz) = &fz {
+        fuzz_stats = fz.stats.clone();
+        enum_stream(env, &mut st, fz.inputs.len() as u64, |i, s| match crate::props::c01::text_of_fuzz_tape(&fz.inputs[i as usize].1) {
+            Some(text) => {
+                s.count("fuzz_inputs_replayed");
+                check_text("fuzz-corpus", &prop, &text, s)
+            }
+            None => vec![],
+        });
+    }
     if prop == "C06" {
         // wide contracts: n functions before a constructor (boundaries of small counters)
         let ns: Vec<usize> = vec![1, 2, 127, 128, 255, 256, 257, 511, 512, 513, 1000];
@@ -227,7 +239,7 @@ pub fn run(env: &Env) -> i32 {
             "canonical / clearly non-matching / undecided forms per detector are fixed in DESIGN.md section 8; undecided forms only relax the 'may' set".into(),
             if need { "files in which state-variable names are not unique or are shadowed are outside the property's domain and skipped (counted)".into() } else { "occurrences inside inline assembly are outside the domain".into() },
         ],
-        extra: json!({}),
+        extra: json!({"fuzz": fuzz_stats}),
         floors,
     };
     finish(env, st, meta)
